@@ -1025,9 +1025,6 @@ def c13_units():
         I = ctx.I
         _bind_scope(ctx)
         ci = I.index.find_class("EventRecorderBase")
-        oid = I.st.new_id()
-        rec = ObjRec(ci.name, ci, {}, {"name": "recorder", "symbolic": True})
-        I.st.objs[oid] = rec
         es = T.new_model_obj(I, "EventStore", "event_store")
         url = SOpt(SStr(z3.Int("event_store_url")), z3.Bool("event_store_url?"))
         ctx.extra["store_url"] = url
@@ -1040,9 +1037,12 @@ def c13_units():
             return a2[0]
 
         I.st.objs[es.oid].fields["append"] = SModel(append, None, "append")
-        rec.fields["_event_store"] = es
-        rec.fields["_publish_to_bus"] = SBool(z3.Bool("publish_to_bus"))
-        return SObj(oid)
+        # the recorder is built by its real __init__, so attributes the constructor sets are the ones _record sees
+        rec = I.construct(ci, [es, SBool(z3.Bool("publish_to_bus"))], {})
+        I.st.objs[rec.oid].meta["symbolic"] = True
+        I.st.objs[rec.oid].meta["name"] = "recorder"
+        I.havoc_mutable_state(rec)  # _record is entered in whatever state earlier calls left the recorder
+        return rec
 
     out.append(Unit(prop="*", name="L1/EventRecorderBase._record", func="stabilize.events.recorder.base:EventRecorderBase._record",
                     registry=reg2, self_type=make_recorder, names=STATUS_NAMES, replayable=False,
@@ -1212,14 +1212,18 @@ def _upsert_post(ctx):
     return goals
 
 
-def _task_roundtrip_run(ctx):
+def _task_roundtrip_run(ctx, existing=False):
     I = ctx.I
     from pyvc.values import SFunc
 
     task = T.new_symbolic(I, "TaskExecution", "task")
     ctx.args["task"] = task
     _upsert_setup(ctx)
-    SQL.get_db(I).table("task_executions").exists = z3.K(INT, False)  # a new task (the INSERT branch)
+    if existing:  # a row of this task with the in-memory version (the UPDATE branch)
+        ent = SQL.get_db(I).table("task_executions")
+        I.st.assume(z3.And(z3.Select(ent.exists, ctx.extra["key"]), z3.Select(ent.cols["version"], ctx.extra["key"]) == ctx.extra["v0"]))
+    else:
+        SQL.get_db(I).table("task_executions").exists = z3.K(INT, False)  # a new task (the INSERT branch)
     m, _c, node = I.index.func(P + "helpers:upsert_task")
     I.call_func(SFunc(node, m, None, None, None, node.name), [ctx.args["conn"], task, SStr(z3.Int("stage_id"))], {})
     tab = SQL.get_db(I).table("task_executions")
@@ -1247,6 +1251,9 @@ def task_units():
              obligations=[Obl("C07/G-task", _upsert_post, when="any"), Obl("C06/durable-write-is-guarded/task", _upsert_post, when="any")]),
         Unit(prop="*", name="L1/upsert_task+row_to_task", func=P + "converters:row_to_task", params=[], names=STATUS_NAMES, registry=reg,
              replayable=False, run=_task_roundtrip_run, obligations=[Obl("C19/store/task-row-roundtrip", _task_roundtrip_post, when="any")]),
+        Unit(prop="*", name="L1/upsert_task(existing)+row_to_task", func=P + "converters:row_to_task", params=[], names=STATUS_NAMES, registry=reg,
+             replayable=False, run=lambda ctx: _task_roundtrip_run(ctx, existing=True),
+             obligations=[Obl("C19/store/task-row-roundtrip-update", _task_roundtrip_post, when="any")]),
     ]
 
 
